@@ -1,13 +1,18 @@
 #!/bin/sh
 # usage: tools/try_patch.sh <patch.diff> <PID> [<PID>...]
 # Applies a patch to a scratch copy of /repo/hvsrpy (never to /repo) and runs the named checks on it.
-set -e
-PATCH="$1"; shift
+PATCH=$(readlink -f "$1"); shift
 TMP=$(mktemp -d /tmp/hvsa_try.XXXXXX)
 trap 'rm -rf "$TMP"' EXIT
 cp -r /repo/hvsrpy "$TMP/hvsrpy"
 rm -rf "$TMP/hvsrpy/__pycache__"
-(cd "$TMP" && git apply --include='hvsrpy/*' "$PATCH") || { echo "PATCH-DOES-NOT-APPLY $PATCH"; exit 3; }
+if ! (cd "$TMP" && git apply --include='hvsrpy/*' "$PATCH" 2>/dev/null); then
+  # the tree moved since the patch was written: retry with fuzz
+  if ! (cd "$TMP" && patch -p1 -s -F3 --no-backup-if-mismatch < "$PATCH" >/dev/null 2>&1); then
+    echo "PATCH-DOES-NOT-APPLY $PATCH"; exit 3
+  fi
+  echo "(applied with fuzz)"
+fi
 cd "$(dirname "$0")/.."
 for P in "$@"; do
   VERIF_REPO="$TMP" HVSA_EVIDENCE_DIR="$TMP/evidence" ./check "$P" | grep -v '^    via' | grep -E 'VIOLATION|ANALYSIS-ERROR|^\[C|C[0-9][0-9]\.R' | cut -c1-330 || true
